@@ -274,7 +274,15 @@ func Main(t *testing.T, e Engine) {
 			fmt.Printf("run %d seed %d nontrivial=%v viol=%d evals=%d\n", i, seed, res.NonTrivial, len(res.Violations), res.Evals)
 		}
 		if len(res.Violations) > 0 {
-			violRuns++
+			onlyKnown := true
+			for _, v := range res.Violations {
+				if !strings.HasPrefix(v.Signature, "known:") {
+					onlyKnown = false
+				}
+			}
+			if !onlyKnown {
+				violRuns++ // listed known findings do not count towards the early stop
+			}
 			// one replay file per distinct class in this run
 			seen := map[string]bool{}
 			for _, v := range res.Violations {
